@@ -145,7 +145,7 @@ Definition managed (s : st) : bool :=
     sub-context of the NEW incarnation (a spurious forced reconnect).  With
     fixes/C13_1_reconnect_by_identity.diff they act on their own target object;
     this constant then becomes [false]. *)
-Definition stale_reconnect_by_name : bool := true.
+Definition stale_reconnect_by_name : bool := false.
 
 (** * Hidden steps *)
 
